@@ -31,7 +31,7 @@ def run(tier, prop=PROP, module=MODULE, files=FILES):
     ck = Check(prop, tier)
     deep = tier == "thorough"
     sizes = [25, 51, 101, 201, 301] if deep else [25, 51, 101]
-    drs = (1.0, 0.5) if deep else (1.0,)
+    drs = (1.0, 0.5)
     ck.cov["rule"] = (f"K: Lean operator matrices vs implementation arrays, entrywise. S: every method/option set of harness/envelopes.half_cases "
                       f"x families gauss/bump/ring x n in {sizes} x dr in {drs} x 3 rows; image methods (rbasex incl. explicit origin, linbasex) on "
                       f"cos² rings b in {{0,1.5}} for n ≤ 101 in two radial zones; envelope = 2 x frozen baseline, gross = 0.5, refinement "
